@@ -1,5 +1,7 @@
 import ScenicModel.Model.SamplerSpec
+import ScenicModel.Model.SamplerOptions
 import ScenicModel.Gen.SamplerCfg
+import ScenicModel.Gen.SamplerOptCfg
 import Driver.Util
 /-! line protocol for the sampler model (C01); the configuration is the one regenerated from /repo.
 
@@ -10,6 +12,10 @@ import Driver.Util
                          program (acyclic, proper weights, roots in range), else which one fails
 `order <program>`        the DFS post-order in which `sampleAll` draws
 `paths <program>`        number of weighted outcomes of one `sampleAll`
+`optbuild <k> (id w)*`   `Options.__init__` on a dict of `k` items (option node id, weight `num/den` or `X` = not a
+                         constant number), with the regenerated `Scenic.Gen.optCfg`: `typeError` | `negative` | `empty` |
+                         `ok <m> id* | w* | clone=<same|differs> | deps id*`  (kept options, kept weights, whether
+                         `Options.clone` rebuilds the same, the multiplexer's dependencies after the selector)
 
 Program syntax (prefix tokens, written by tools/props/c01.py `Term.line`):
   <#nodes> node* OUT <k> (label id)* REQ <k> (prob rexpr)* DEF <k> rexpr*
@@ -199,7 +205,33 @@ def runHyp (p : Program) : String :=
   else if !(p.roots.all fun j => decide (j < p.prog.nodes.length)) then "root-out-of-range"
   else "ok"
 
+def pItem : Parser (Nat × Option Rat)
+  | i :: w :: rest =>
+    match i.toNat? with
+    | some i => if w == "X" then some ((i, none), rest) else (parseRat w).map fun q => ((i, some q), rest)
+    | none => none
+  | _ => none
+
+def runOptBuild (items : List (Nat × Option Rat)) : String :=
+  match optBuild Scenic.Gen.optCfg items with
+  | .typeError => "typeError"
+  | .negative => "negative"
+  | .empty => "empty"
+  | .ok os ws =>
+    let same := optClone Scenic.Gen.optCfg os ws == Built.ok os ws
+    let deps := ((optNodes 0 os ws).2.deps).drop 1
+    "ok " ++ toString os.length ++ " " ++ " ".intercalate (os.map toString) ++ " | "
+      ++ " ".intercalate (ws.map showRat) ++ " | clone=" ++ (if same then "same" else "differs")
+      ++ " | deps " ++ " ".intercalate (deps.map toString)
+
 def handle : List String → String
+  | "optbuild" :: k :: rest =>
+    match k.toNat? with
+    | some k =>
+      match pMany pItem k rest with
+      | some (items, []) => runOptBuild items
+      | _ => "bad-items"
+    | none => "bad-items"
   | "gen" :: n :: rest =>
     match n.toNat?, pProgram rest with
     | some n, some (p, []) => runGen n p
